@@ -250,6 +250,13 @@ func cmdC19(seed uint64, tier, outdir string, binPath string) {
 							text += ls[k-1] + "\n"
 						}
 					}
+					// a JSON string is valid UTF-8: encoding/json writes U+FFFD for every invalid byte of the text
+					// (CNRI-Python-GPL-Compatible contains a Latin-1 copyright sign)
+					var sbv strings.Builder
+					for _, rn := range text {
+						sbv.WriteRune(rn)
+					}
+					text = sbv.String()
 					byFile[e.file] = append(byFile[e.file], fmt.Sprintf("%s|%v|%d|%d|%s", e.name, e.conf, e.sl, e.el, text))
 				}
 				prev := ""
@@ -268,6 +275,8 @@ func cmdC19(seed uint64, tier, outdir string, binPath string) {
 					sort.Strings(gotc)
 					sort.Strings(wantc)
 					if strings.Join(gotc, "\x00") != strings.Join(wantc, "\x00") && verdict == "" {
+						os.WriteFile(filepath.Join(outdir, fmt.Sprintf("c19.mismatch.%d.txt", i)),
+							[]byte("GOT\n"+strings.Join(gotc, "\n--\n")+"\nWANT\n"+strings.Join(wantc, "\n--\n")+"\n"), 0o644)
 						verdict = fmt.Sprintf("JSON classifications of %s differ (Text must be lines StartLine..EndLine): got %q want %q", jf.Filepath, trunc(strings.Join(gotc, " || "), 300), trunc(strings.Join(wantc, " || "), 300))
 					}
 				}
